@@ -94,12 +94,15 @@ package providers
 // ---- C19: revocation: nil exactly when the identity provider said ok or "already revoked" --------------
 //@ func (p *GoogleProvider) Revoke(s *sessions.SessionState) error
 //@   modifies clock
+//@   ensures [C19] revokes_the_sessions_access_token: called(@googleRequest#1) && before(@googleRequest#1, formGet(arg(@googleRequest#1, 3), "token")) == s.AccessToken
 //@   ensures [C19] revoked_or_already: result == nil <==> called(@googleRequest#1) && (@googleRequest#1 == nil || @googleRequest#1 == ErrTokenRevoked)
 //@   ensures [C19] error_passed_on: result != nil ==> result == @googleRequest#1
 //@   ensures [C19] revokes_this_token: called(@googleRequest#1) && before(@googleRequest#1, formGet(arg(@googleRequest#1, 3), "token")) == old(s.AccessToken)
 
 //@ func (p *OktaProvider) Revoke(s *sessions.SessionState) error
 //@   modifies clock
+// what is revoked is the refresh token (with that hint): at Okta that ends the grant — the access tokens minted from it included
+//@   ensures [C19] revokes_the_sessions_refresh_token: called(@oktaRequest#1) && arg(@oktaRequest#1, 1) == "POST" && before(@oktaRequest#1, formGet(arg(@oktaRequest#1, 3), "token")) == s.RefreshToken && before(@oktaRequest#1, formGet(arg(@oktaRequest#1, 3), "token_type_hint")) == "refresh_token"
 //@   ensures [C19] revoked_or_already: result == nil <==> called(@oktaRequest#1) && (@oktaRequest#1 == nil || @oktaRequest#1 == ErrTokenRevoked)
 //@   ensures [C19] error_passed_on: result != nil ==> result == @oktaRequest#1
 
@@ -351,3 +354,29 @@ package providers
 //@   fresh result.0
 //@   ensures [C10 C09] profile_or_error: (result.1 == nil ==> result.0 != nil && called(@oktaRequest#1) && @oktaRequest#1 == nil) && (result.1 != nil ==> result.0 == nil)
 //@   ensures [C10] asked_with_this_token: called(@oktaRequest#1) ==> arg(@oktaRequest#1, 1) == "GET" && AccessToken != ""
+
+// ---- C17: a group listing is complete or it is an error ----------------------------------------------------------
+// The member list handed to the cache is the whole answer of the directory: a page that could not be fetched, or a
+// nested group that could not be expanded, fails the listing (the cache then keeps what it had) — it is never
+// skipped. (Loop 1: pages; loop 2: the members of a page.)
+//@ func (gs *GoogleAdminService) listMemberships(groupName string, maxDepth int, currentDepth int) ([]string, error)
+//@   unchecked call-pre: Breaker.Call requires its ghost ticket count to be non-negative — ghost accounting that every admission/settlement pair maintains (C15) and that the directory SDK calls in between, which are opaque here, cannot touch
+//@   modifies everything
+//@   unchecked typeassert: resp.(*admin.Members) — Breaker.Call hands back what the function literal returned, which is the *admin.Members of req.Do() (the breaker's contract is stated over an opaque function value)
+//@   ensures [C17] a_page_that_could_not_be_fetched_fails_the_listing: called(@Call#1) && @Call#1.1 != nil ==> result.1 != nil && result.0 == nil
+//@   ensures [C17] a_nested_group_that_could_not_be_expanded_fails_the_listing: called(@listMemberships#1) && @listMemberships#1.1 != nil ==> result.1 != nil && result.0 == nil
+//@   loop 1
+//@     invariant no_page_was_skipped: !called(@Call#1) || @Call#1.1 == nil
+//@     invariant no_nested_group_was_skipped: !called(@listMemberships#1) || @listMemberships#1.1 == nil
+//@   loop 2
+//@     invariant no_page_was_skipped: !called(@Call#1) || @Call#1.1 == nil
+//@     invariant no_nested_group_was_skipped: !called(@listMemberships#1) || @listMemberships#1.1 == nil
+
+// ---- C19 / C09: the group cache never answers a validation or a revocation itself -----------------------------------
+//@ func (p *GroupCache) ValidateSessionState(s *sessions.SessionState) bool
+//@   modifies everything
+//@   ensures [C19 C09] the_wrapped_provider_is_asked_every_time: called(@ValidateSessionState#1) && arg(@ValidateSessionState#1, 0) == old(p.provider) && arg(@ValidateSessionState#1, 1) == s && result == @ValidateSessionState#1
+
+//@ func (p *GroupCache) Revoke(s *sessions.SessionState) error
+//@   modifies everything
+//@   ensures [C19] the_wrapped_provider_revokes: called(@Revoke#1) && arg(@Revoke#1, 0) == old(p.provider) && arg(@Revoke#1, 1) == s && result == @Revoke#1
